@@ -68,6 +68,23 @@ class SiteWorld:
             return None
         return evs[0].message if evs[0].message is not None else evs[0].exception
 
+    def do_many(self, msgs, eps):
+        """Several requests handed to the site in one loop pass (their handlers interleave wherever they suspend);
+        the first event of each, in the order of the requests."""
+        self.activate()
+        boxes = []
+        for msg, ep in zip(msgs, eps):
+            msg.direction = Direction.INCOMING
+            if msg.remote is None:
+                msg.remote = endpoint(ep) if isinstance(ep, int) else ep
+            evs = []
+            p = Pipe(msg, self.ctx.log)
+            p.on_event(lambda ev, evs=evs: (evs.append(ev), True)[1])
+            self.ctx.render_to_pipe(p)
+            boxes.append(evs)
+        self.loop.settle()
+        return [None if not evs else (evs[0].message if evs[0].message is not None else evs[0].exception) for evs in boxes]
+
     def advance(self, dt):
         self.loop.advance(dt)
 
